@@ -25,7 +25,7 @@ def obligations():
     o = [Obl("C05.dist.nocell", "py", H, "check_kernel", ["geometry.cpp:dist"], "symbolic coordinates", "non-periodic: displacement is x2-x1 and distance its norm", 120, params={"kernel": "dist", "cell": "none"}),
          Obl("C05.dist_t.nocell", "py", H, "check_kernel", ["geometry.cpp:dist_t"], "two frames, time pair (0,1)", "time-pair variant: atom 1 at t0, atom 2 at t1", 120, params={"kernel": "dist_t", "cell": "none"})]
     for c in sorted(CELLS):
-        quick = c in ("cubic", "ortho_ratio6", "monoclinic70", "hexagonal120", "trunc_octahedron", "triclinic_a", "triclinic_b", "triclinic_a_unreduced", "hexagonal60_unreduced")
+        quick = c in ("cubic", "ortho_ratio6", "monoclinic70", "monoclinic_alpha70", "hexagonal120", "trunc_octahedron", "triclinic_a", "triclinic_b", "triclinic_a_unreduced", "hexagonal60_unreduced")
         tiers = ("quick", "thorough") if quick else ("thorough",)
         if c in ORTHO:
             o.append(Obl(f"C05.dist_mic.{c}", "py", H, "check_kernel", ["geometry.cpp:dist_mic (distancekernels.h)"], f"cell {c}; coordinates within +-50 cells; images within +-2",
